@@ -39,7 +39,10 @@ func c11Schema() *hx.Schema {
 		{Kind: hx.KInterface, Name: "I0", Fields: []*hx.Field{
 			{Name: "f", Type: hx.Named("String"), Args: fArgs()}, {Name: "g", Type: hx.Named("String"), Args: gArgs()},
 			{Name: "o", Type: hx.Named("I0"), Args: []*hx.Arg{kArg()}}, {Name: "n", Type: hx.Named("Int")}}},
-		{Kind: hx.KObject, Name: "T0", Interfaces: []string{"I0"}, Fields: []*hx.Field{
+		// I1 and U1 start with T0 alone: a step may extend the schema so that T1 joins them
+		{Kind: hx.KInterface, Name: "I1", Fields: []*hx.Field{{Name: "n", Type: hx.Named("Int")}}},
+		{Kind: hx.KUnion, Name: "U1", Members: []string{"T0"}},
+		{Kind: hx.KObject, Name: "T0", Interfaces: []string{"I0", "I1"}, Fields: []*hx.Field{
 			{Name: "f", Type: hx.Named("String"), Args: fArgs()}, {Name: "g", Type: hx.Named("String"), Args: gArgs()},
 			{Name: "o", Type: hx.Named("T0"), Args: []*hx.Arg{kArg()}}, {Name: "n", Type: hx.Named("Int")}}},
 		{Kind: hx.KObject, Name: "T1", Interfaces: []string{"I0"}, Fields: []*hx.Field{
@@ -97,12 +100,17 @@ type c11Step struct {
 	// PanicKey: a resolver asked for this response key panics during the step (the caller recovers,
 	// as an HTTP server does); the kept Executable is used again afterwards
 	PanicKey string `json:"panic_key,omitempty"`
+	// Extend: SDL the root is given before the step (the schema grows between two uses of the kept
+	// Executable); the fresh root of the comparison is given everything up to here as well
+	Extend string `json:"extend,omitempty"`
 }
 
 type c11Case struct {
 	Text  string    `json:"text"`
 	Steps []c11Step `json:"steps"`
 	Strat string    `json:"strategy"`
+	// Scribble: the resolvers overwrite, in place, the argument values they were given
+	Scribble bool `json:"scribble,omitempty"`
 }
 
 type c11gen struct {
@@ -316,6 +324,11 @@ func (g *c11gen) sels(con string, depth int, frags []c11Frag, label string) stri
 			}
 		case k == 4 && len(usable) > 0:
 			out = append(out, "..."+rapid.SampledFrom(usable).Draw(g.t, lab+"fr").name+g.dir(lab))
+		case k == 4 && con != "Query":
+			// fragments on the interface / union T1 is not (yet) part of
+			g.nKey++
+			d := g.dir(lab)
+			out = append(out, rapid.SampledFrom([]string{"...FI1" + d, "...FU1" + d, fmt.Sprintf("... on I1%s { k%d: n }", d, g.nKey), fmt.Sprintf("... on U1%s { k%d: __typename }", d, g.nKey)}).Draw(g.t, lab+"late"))
 		case k == 5:
 			on := con
 			if con != "Query" {
@@ -425,11 +438,14 @@ func genCaseC11(t *rapid.T) *c11Case {
 		defs = append(defs, "query "+name+"("+varDefs+") { "+g.sels("Query", 3, frags, name)+intro+" "+entry+" { "+g.sels(sub, 2, frags, name+"t")+shared+" } }")
 	}
 	defs = append(defs, fragDefs...)
+	defs = append(defs, "fragment FI1 on I1 { ni: n }", "fragment FU1 on U1 { tu: __typename }")
 	defs = append(defs, "fragment FIntro on __Type { kind @skip(if: $b) fields(includeDeprecated: $c) { name isDeprecated } }")
 	if len(defs) > 1 {
 		defs = rapid.Permutation(defs).Draw(t, "defOrder")
 	}
 	c.Text = strings.Join(defs, "\n")
+	c.Scribble = rapid.IntRange(0, 2).Draw(t, "scribblingResolvers") == 0
+	exts := []string{"extend type T1 implements I1 {}", "extend union U1 = T1", "extend type T0 { late: Int }"}
 	nSteps := rapid.IntRange(2, 8).Draw(t, "nSteps")
 	for i := 0; i < nSteps; i++ {
 		st := c11Step{Op: rapid.SampledFrom(opNames).Draw(t, fmt.Sprintf("step%dop", i))}
@@ -438,6 +454,11 @@ func genCaseC11(t *rapid.T) *c11Case {
 			if vn == "c" || rapid.IntRange(0, 3).Draw(t, lab+"give") != 0 {
 				st.Vars = append(st.Vars, hx.KV{Key: vn, V: rapid.SampledFrom(c11VarPool[vn]).Draw(t, lab)})
 			}
+		}
+		if i > 0 && len(exts) > 0 && rapid.IntRange(0, 3).Draw(t, fmt.Sprintf("step%dextends", i)) == 0 {
+			k := rapid.IntRange(0, len(exts)-1).Draw(t, fmt.Sprintf("step%dext", i))
+			st.Extend = exts[k]
+			exts = append(exts[:k], exts[k+1:]...)
 		}
 		if rapid.IntRange(0, 7).Draw(t, fmt.Sprintf("step%dpanic", i)) == 0 {
 			st.PanicKey = fmt.Sprintf("k%d", rapid.IntRange(1, 12).Draw(t, fmt.Sprintf("step%dpanicKey", i)))
@@ -448,7 +469,7 @@ func genCaseC11(t *rapid.T) *c11Case {
 }
 
 func c11World(c *c11Case) (*World, error) {
-	cs := &Case{Schema: c11Schema(), Graph: c11Graph(), Echo: true}
+	cs := &Case{Schema: c11Schema(), Graph: c11Graph(), Echo: true, Scribble: c.Scribble}
 	for range cs.Graph.Nodes {
 		if c.Strat == "A" {
 			cs.Assign = append(cs.Assign, "A")
@@ -502,7 +523,16 @@ func checkC11(c *c11Case) (ds []hx.Discrepancy, traits map[string]bool) {
 	}
 	printed := exe.String()
 	seenOps := map[string]bool{}
+	var applied []string
 	for i, st := range c.Steps {
+		if st.Extend != "" {
+			if err := w.Root.ParseString(st.Extend); err != nil {
+				add("setup", "step %d: extension %q refused: %v", i, st.Extend, err)
+				return
+			}
+			applied = append(applied, st.Extend)
+			traits["schema-extended-between-steps"] = true
+		}
 		panicHook := func(node int, field *ggql.Field, args map[string]interface{}) (interface{}, error, bool) {
 			if st.PanicKey != "" && field.Alias == st.PanicKey {
 				panic("injected resolver panic at " + st.PanicKey)
@@ -521,6 +551,12 @@ func checkC11(c *c11Case) (ds []hx.Discrepancy, traits map[string]bool) {
 		if err != nil {
 			add("setup", "%v", err)
 			return
+		}
+		for _, ext := range applied {
+			if err := fw.Root.ParseString(ext); err != nil {
+				add("setup", "step %d: extension %q refused by the fresh root: %v", i, ext, err)
+				return
+			}
 		}
 		fexe, err := fw.Root.ParseExecutableString(c.Text)
 		if err != nil {
@@ -589,7 +625,7 @@ func TestC11(t *testing.T) {
 	run := hx.NewRun("C11")
 	defer run.Flush()
 	classes := func(c *c11Case, tr map[string]bool) (bool, []string) {
-		cl := []string{"strategy=" + c.Strat, fmt.Sprintf("steps=%d", len(c.Steps))}
+		cl := []string{"strategy=" + c.Strat, fmt.Sprintf("steps=%d", len(c.Steps)), fmt.Sprintf("resolvers-overwrite-their-arguments=%v", c.Scribble)}
 		for k := range tr {
 			cl = append(cl, k)
 		}
